@@ -36,6 +36,16 @@ class _Counter(ast.NodeVisitor):
             self.sites.append(("addsub", len(self.sites)))
         if isinstance(node, (ast.Continue,)):
             self.sites.append(("cont2pass", len(self.sites)))
+        if isinstance(node, ast.Break):
+            self.sites.append(("break2pass", len(self.sites)))
+        if isinstance(node, (ast.Expr, ast.AugAssign)) and not (isinstance(node, ast.Expr) and isinstance(node.value, ast.Constant)):
+            self.sites.append(("delstmt", len(self.sites)))
+        if isinstance(node, ast.Call) and len(node.args) >= 3 and isinstance(node.func, ast.Name) \
+                and node.func.id.endswith("Error"):
+            self.sites.append(("swapargs", len(self.sites)))
+        if isinstance(node, ast.Return) and node.value is not None and isinstance(node.value, ast.Call) \
+                and isinstance(node.value.func, ast.Attribute) and node.value.func.attr in ("add_error", "add_errors"):
+            self.sites.append(("dropadd", len(self.sites)))
         super().generic_visit(node)
 
 
@@ -82,6 +92,24 @@ class _Apply(ast.NodeTransformer):
             if self._hit():
                 self.desc = f"line {node.lineno}: continue -> pass"
                 return ast.copy_location(ast.Pass(), node)
+        if isinstance(node, ast.Break):
+            if self._hit():
+                self.desc = f"line {node.lineno}: break -> pass"
+                return ast.copy_location(ast.Pass(), node)
+        if isinstance(node, (ast.Expr, ast.AugAssign)) and not (isinstance(node, ast.Expr) and isinstance(node.value, ast.Constant)):
+            if self._hit():
+                self.desc = f"line {node.lineno}: statement deleted"
+                return ast.copy_location(ast.Pass(), node)
+        if isinstance(node, ast.Call) and len(node.args) >= 3 and isinstance(node.func, ast.Name) \
+                and node.func.id.endswith("Error"):
+            if self._hit():
+                self.desc = f"line {node.lineno}: last two arguments of {node.func.id} swapped"
+                node.args[-1], node.args[-2] = node.args[-2], node.args[-1]
+        if isinstance(node, ast.Return) and node.value is not None and isinstance(node.value, ast.Call) \
+                and isinstance(node.value.func, ast.Attribute) and node.value.func.attr in ("add_error", "add_errors"):
+            if self._hit():
+                self.desc = f"line {node.lineno}: return result.add_error(..) -> return result"
+                node.value = node.value.func.value
         return super().generic_visit(node)
 
 
